@@ -25,6 +25,7 @@ fn renderings(t: &mut Tape, schema: &crate::world::schema::Schema) -> Vec<Render
         use_extensions: t.chance(60),
         indent_tabs: t.chance(20),
         commas: t.chance(10),
+        directive_noise: if t.chance(40) { t.u64() | 1 << 40 } else { 0 },
     };
     let mut js = |wrapped: bool, t: &mut Tape| JsonStyle {
         wrapped_in_data: wrapped,
